@@ -9,7 +9,7 @@ From Coq Require Import List Arith ZArith Bool.
 From Verif Require Import lib.Wire c15.Lts c15.Model c15.Spec c15.Proofs c15.Proofs_Chan c15.Proofs_Loc
   c15.Proofs_List c15.Proofs_Safe c15.Proofs_Init c15.Proofs_Once c15.Proofs_Thm c15.Proofs_Grow
   c15.Proofs_First c15.Proofs_Wild c15.Proofs_Live c15.Proofs_Dead c15.Proofs_Pend c15.Proofs_Idx c15.Proofs_Prog
-  c15.Proofs_Valid c15.Proofs_WildOK c15.Proofs_Blk c15.Proofs_Obs c15.Proofs_Loc3 c15.Proofs_WSI c15.Proofs_TY c15.Proofs_Rule13.
+  c15.Proofs_Valid c15.Proofs_WildOK c15.Proofs_Blk c15.Proofs_Obs c15.Proofs_Loc3 c15.Proofs_WSI c15.Proofs_TY c15.Proofs_Rule13 c15.Proofs_Reads.
 Import ListNotations.
 
 (* the checked tie: a label trace accepted by conform_case's search is the
@@ -202,6 +202,22 @@ Theorem c15_init_state_wf_init : forall nt sl ml el,
                       (map (fun p => new_emit (fst p) (snd p)) el)).
 Proof. exact init_state_wf_init. Qed.
 Print Assumptions c15_init_state_wf_init.
+
+(* MONITOR RULES 1-3 ON EVERY MODEL TRACE (decoded form; _partial: the wire-level
+   check_read of Spec.v is not formally connected to this statement, and rules 4-10
+   and 12 are covered on the model side only by c15_exactly_once_in_order /
+   c15_wildcard_same_rules / c15_history_append_only / c15_stateful_replay_first /
+   c15_closed_is_unlisted / c15_emit_blocks_not_drops, without a coupling to the
+   monitor's own functions): whatever value the consumer of s reports is the event
+   of an Emit call that has started, of a type s subscribes to (any type if s is a
+   wildcard subscription). *)
+Theorem c15_monitor_reads_partial : forall st sched s v, wf_init st -> In (LRead s v) (trace step st sched) -> (v <> -2)%Z ->
+  exists k e m c, nth_error (emits (run step st sched)) k = Some e /\ eev e = v /\
+    (o_started (trace step st sched) (TEmit k) || o_returned (trace step st sched) (TEmit k)) = true /\
+    nth_error (emitters (run step st sched)) (eem e) = Some m /\ nth_error (subs (run step st sched)) s = Some c /\
+    (styps c = None \/ exists tys, styps c = Some tys /\ In (mty m) tys).
+Proof. exact reads_provenance_l. Qed.
+Print Assumptions c15_monitor_reads_partial.
 
 (* the same for holders of the wildcard read lock *)
 Theorem c15_reader_progress_partial : forall st sched k e n todo, initial st ->
